@@ -1378,16 +1378,35 @@ def generate(repo: Path) -> str:
            'section',
            'variable {α : Type} [Add α] [Sub α] [Mul α] [Div α] [Neg α] [OfScientific α]',
            '  [LT α] [DecidableLT α] [LE α] [DecidableLE α] [Fn α]', '']
+    # every definition (or group of slices of one function) is translated on its own: a construct outside the subset in one function
+    # leaves a marker and the reason here, breaks exactly the ties that mention the missing definitions, and leaves the others alone
+    done, failed = [], []
+
+    def group(names, thunk):
+        ev.guards, ev.lets, ev.compose = [], [], set()
+        try:
+            out.append(thunk())
+            done.extend(names)
+        except Unsupported as e:
+            failed.append((names, str(e)))
+            out.append('-- UNSUPPORTED ' + ' '.join(names) + ': ' + str(e).replace('\n', ' ')[:300] + '\n')
+        except (KeyError, IndexError, AttributeError, TypeError, AssertionError) as e:     # a shape the slicer did not expect
+            failed.append((names, f'{type(e).__name__}: {e}'))
+            out.append('-- UNSUPPORTED ' + ' '.join(names) + f': {type(e).__name__}: {e}'.replace('\n', ' ')[:300] + '\n')
     for spec in SPECS:
-        out.append(emit(ev, spec))
-    out.append(emit_step(ev))
+        group([spec[0]], lambda spec=spec: emit(ev, spec))
+    group(['step'], lambda: emit_step(ev))
     for spec in FILTER_SPECS:
-        out.append(emit_filter(ev, spec))
-    out.append(emit_sock(ev))
-    out.append(emit_loop_parts(ev))
-    out.append(emit_curve(ev))
-    out.append(emit_zero(ev))
-    out += ['end', '', 'def translated : List String := [' + ', '.join(f'"{s[0]}"' for s in SPECS) + ', "step", ' + ', '.join(f'"{s[0]}"' for s in FILTER_SPECS) + ', "sock_init", "sock_vector_for_range", "sock_current_vector", "initial_state", "min_step", "loop_condition", "limit_reason", "curve_first", "curve_loop_bounds", "curve_mid", "curve_last", "bsearch_init", "bsearch_cond", "bsearch_step", "curve_select", "curve_value", "zero_start", "zero_distance", "zero_initial_error", "zero_initial_count", "zero_cond", "zero_error", "zero_missed", "zero_correct", "zero_fails", "zero_result"]', '', 'end BC.Gen.Src', '']
+        group([spec[0]], lambda spec=spec: emit_filter(ev, spec))
+    group(['sock_init', 'sock_vector_for_range', 'sock_current_vector'], lambda: emit_sock(ev))
+    group(['initial_state', 'min_step', 'loop_condition', 'limit_reason'], lambda: emit_loop_parts(ev))
+    group(['curve_first', 'curve_loop_bounds', 'curve_mid', 'curve_last', 'bsearch_init', 'bsearch_cond', 'bsearch_step', 'curve_select',
+           'curve_value'], lambda: emit_curve(ev))
+    group(['zero_start', 'zero_distance', 'zero_initial_error', 'zero_initial_count', 'zero_cond', 'zero_error', 'zero_missed',
+           'zero_correct', 'zero_fails', 'zero_result'], lambda: emit_zero(ev))
+    out += ['end', '', 'def translated : List String := [' + ', '.join(f'"{n}"' for n in done) + ']',
+            'def untranslated : List String := [' + ', '.join(f'"{n}"' for ns, _ in failed for n in ns) + ']', '', 'end BC.Gen.Src', '']
+    generate.failed = failed
     return '\n'.join(out)
 
 
